@@ -79,6 +79,14 @@ def cases(draw, salt=0):
         nodes.append(glb)
     nodes.append({"type": "Compute", "name": "MAC", "compute": [draw(en), draw(st.sampled_from([1, 1, 2, 0.5]))],
                   "leak": draw(leak)})
+    # per-component scale attributes (default 1 everywhere in ordinary architectures): different values on different
+    # components make any mix-up between components visible in the breakdowns
+    if draw(st.integers(0, 1)):
+        for n in nodes:
+            if draw(st.integers(0, 2)):
+                n["actions_scale"] = draw(st.sampled_from([2, 3, 0.5, 5]))
+            if draw(st.integers(0, 3)) == 0:
+                n["energy_scale"] = draw(st.sampled_from([2, 0.5]))
     d = dict(wl)
     d["nodes"] = nodes
     d["n_instances"] = draw(st.sampled_from([1, 1, 1, 1, 2]))
@@ -286,7 +294,8 @@ def check(desc, col):
                                  for k, v in raw0["actions"].items())
     nontrivial = len(einsum_names) >= 2 and n >= 2 and leak
     labels = base + [f"rows:{min(n, 3)}{'+' if n >= 3 else ''}", "leak:nonzero" if leak else "leak:zero",
-                     "toll_actions:nonzero" if toll_used else "toll_actions:none"]
+                     "toll_actions:nonzero" if toll_used else "toll_actions:none",
+                     "actions_scale:differs" if len({x.get("actions_scale", 1) for x in desc["nodes"]}) > 1 else "actions_scale:uniform"]
     col.case(desc, nontrivial, labels,
              sample={"shape": desc.get("shape"), "bounds": desc["bounds"], "rows": n, "metrics": desc["mapper"]["metrics"],
                      "total_energy": raw0["totals"].get("energy", [None])[:3], "total_latency": raw0["totals"].get("latency", [None])[:3]})
